@@ -1887,10 +1887,41 @@ def validate_topology_heap(rng, n_cases, res):
             expect.append(("collect_inputs_outputs", want_io))
             reqs.append({"fn": "check_missing_components", "args": [heap, [ix[id(c)] for c in listed]]})
             expect.append(("check_missing_components", real(sched._check_missing_components, listed)))
+        if common.TRANSLATION_STATUS.get("metadata_links", {}).get("translated"):
+            # the link list of `Composition.metadata`, on the compositions that connect (last: `connect` changes the objects)
+            from .fmutil import T as _T, limited as _limited
+            try:
+                has_time = any(case["comps"][c]["timed"] for c in case["order"])
+                _limited(60, composition.connect, _T(0) if has_time else None)
+                md_links = composition.metadata["links"]
+            except Exception:  # noqa
+                md_links = None
+            if md_links is not None:
+                heap2, ix2 = extract_heap(objs)
+                byname = {f"{o.name}@{id(o)}": o for o in objs if hasattr(o, "name")}
+
+                def end(e, slots):
+                    if "adapter" in e:
+                        a = ix2[id(byname[e["adapter"]])]
+                        return [a, a]
+                    c = byname[e["component"]]
+                    return [ix2[id(c)], ix2[id(getattr(c, slots)[e["output" if slots == "outputs" else "input"]])]]
+
+                want_links = [[end(l["from"], "outputs"), end(l["to"], "inputs")] for l in md_links]
+                reqs.append({"fn": "metadata_links", "args": [
+                    heap2, [ix2[id(c)] for c in composition._components], [ix2[id(a)] for a in composition._adapters],
+                    [[ix2[id(k)], ix2[id(v)]] for k, v in composition._input_owners.items()]]})
+                expect.append(("metadata_links", {"ok": want_links}))
+                stats["links_listed"] = stats.get("links_listed", 0) + len(want_links)
         if not reqs:
             continue
         for (fn, want), got in zip(expect, _trdriver(reqs)):
             stats[fn] = stats.get(fn, 0) + 1
+            if fn == "metadata_links":
+                if got != want:
+                    stats["mismatch"] += 1
+                    res.diverge("translation/" + fn, {"case": case, "fn": fn}, want, got)
+                continue
             if "err" in want:
                 stats["errors"][want["err"]] = stats["errors"].get(want["err"], 0) + 1
             agree = ("err" in want) == ("err" in got) and want.get("err") == got.get("err")
